@@ -163,20 +163,22 @@ structure TopicNode where
 
 def metaField (pkg name : Str) : Field := .objectRef pkg name false []
 
+/-- the method / message name `acceptTopic` uses: the given one, or the topic's name when the
+topic has a single message; `none` = walker error "method name is required" -/
+def topicMethodName (t : TopicNode) (m : TopicMsg) : Option Str :=
+  match m.name with
+  | some n => some n
+  | none => if t.msgs.length = 1 then some t.name else none
+
 /-- `acceptTopic`: one step per message (a missing name aborts before the message is visited),
 then the topic service -/
 def acceptTopic (c : Ctx) (t : TopicNode) : List Step :=
-  let single := t.msgs.length = 1
-  let methodName (m : TopicMsg) : Option Str :=
-    match m.name with
-    | some n => some n
-    | none => if single then some t.name else none
   let msgSteps : List Step := t.msgs.map fun m =>
-    match methodName m with
+    match topicMethodName t m with
     | none => { target := .topic, hard := true }
     | some n => { target := .topic, eff := convVirtual c (n ++ b!"Message") t.prepend m.props }
   let methods : List MethodSkel := t.msgs.filterMap fun m =>
-    (methodName m).map fun n =>
+    (topicMethodName t m).map fun n =>
       { name := n, input := n ++ b!"Message", output := googleProtoEmptyType, http := none,
         mopt := .none }
   msgSteps ++
